@@ -15,6 +15,9 @@ pub struct Timed {
     pub slots: Vec<u64>,
     pub symbols: Vec<&'static str>,
     pub intervals: u64,
+    /// false: the peer has not sent its handshake when the search starts ("Handshake" is a symbol)
+    pub handshaken: bool,
+    pub outgoing: bool,
 }
 
 #[derive(Default)]
@@ -25,6 +28,7 @@ pub struct Mon {
     /// For every completed tick-to-tick interval: did a non-keep-alive message arrive in it?
     pub live_in_interval: Vec<bool>,
     pub ended_at_slot: Option<u64>,
+    pub hs_done: bool,
 }
 
 impl Timed {
@@ -42,6 +46,7 @@ fn sym_msg(sym: &str) -> Option<Msg> {
         "Have" => Some(Msg::Have(1)),
         "Request" => Some(Msg::Request(0, 0, 1)),
         "Interested" => Some(Msg::Interested),
+        "Handshake" => Some(refwire::handshake(&[0; 20], &[0; 20])), // placeholder, see concretize
         _ => None,
     }
 }
@@ -49,25 +54,31 @@ fn sym_msg(sym: &str) -> Option<Msg> {
 impl Scenario for Timed {
     type Mon = Mon;
     fn name(&self) -> String {
-        format!("timed-{:?}-{:?}-{}", self.slots, self.symbols, self.intervals)
+        format!("timed-{:?}-{:?}-{}{}{}", self.slots, self.symbols, self.intervals, if self.handshaken { "" } else { "-nohs" }, if self.outgoing { "" } else { "-incoming" })
     }
     fn cfg(&self) -> WorldCfg {
-        WorldCfg { torrent: Torrent::new("t", 16384, &[("f", 16384 * 2)], true), have: vec![], peers: vec![peer_cfg(0, true)], gated: false }
+        WorldCfg { torrent: Torrent::new("t", 16384, &[("f", 16384 * 2)], true), have: vec![], peers: vec![peer_cfg(0, self.outgoing)], gated: false }
     }
-    fn setup(&self, w: &mut World, _mon: &mut Mon) {
-        let t = w.t.clone();
-        let id = w.peers[0].cfg.id;
-        w.feed(0, &[refwire::handshake(t.meta.info_hash(), &id), Msg::Bitfield(vec![0xc0]), Msg::Unchoke]);
+    fn setup(&self, w: &mut World, mon: &mut Mon) {
+        if self.handshaken {
+            let t = w.t.clone();
+            let id = w.peers[0].cfg.id;
+            w.feed(0, &[refwire::handshake(t.meta.info_hash(), &id), Msg::Bitfield(vec![0xc0]), Msg::Unchoke]);
+            mon.hs_done = true;
+        }
     }
     fn enabled(&self, w: &World, mon: &Mon, _depth: usize) -> Vec<String> {
         if w.peers[0].ended.get() || mon.slot >= self.intervals * self.slots.len() as u64 {
             return vec![];
         }
-        self.symbols.iter().map(|s| s.to_string()).collect()
+        // before its handshake a peer can only stay silent or handshake (anything else is refused)
+        self.symbols.iter().filter(|s| mon.hs_done != (**s == "Handshake") || **s == "nothing").filter(|s| mon.hs_done || **s == "nothing" || **s == "Handshake").map(|s| s.to_string()).collect()
     }
     fn concretize(&self, _w: &World, mon: &Mon, sym: &str) -> Vec<Ev> {
         let mut evs = vec![Ev::AdvanceTo(self.slot_time_ms(mon.slot))];
-        if let Some(m) = sym_msg(sym) {
+        if sym == "Handshake" {
+            evs.push(Ev::Feed(0, refwire::encode(&refwire::handshake(_w.t.meta.info_hash(), &_w.peers[0].cfg.id))));
+        } else if let Some(m) = sym_msg(sym) {
             evs.push(Ev::Feed(0, refwire::encode(&m)));
         }
         evs
@@ -92,6 +103,9 @@ impl Scenario for Timed {
             }
             if sym_msg(sym).map(|m| m != Msg::KeepAlive).unwrap_or(false) && !p.ended.get() {
                 mon.last_live_ms = now;
+            }
+            if sym == "Handshake" {
+                mon.hs_done = true;
             }
             mon.slot += 1;
         }
@@ -132,7 +146,10 @@ impl Scenario for Timed {
         } else {
             // (c) one keep-alive written per tick on a live connection
             let written = p.msgs.iter().filter(|m| **m == Msg::KeepAlive).count() as u64;
-            if written != ticks_passed {
+            // on an incoming connection that has not handshaken yet the client owes (and may send)
+            // nothing; keep-alives are demanded from the handshake on
+            let exempt = !self.outgoing && !mon.hs_done;
+            if !exempt && written != ticks_passed {
                 return Some(("keep-alive-not-emitted-every-interval", format!("{} ticks passed (t={} s) but the client wrote {} keep-alives", ticks_passed, now / 1000, written)));
             }
         }
@@ -141,21 +158,26 @@ impl Scenario for Timed {
     fn key(&self, w: &World, mon: &Mon) -> String {
         // byte counters are part of the key (they feed the rate statistics); the time of the last
         // live message matters only relative to the interval grid
-        format!("{} slot={} live={} liv={:?}", w.default_key(), mon.slot, mon.last_live_ms / 120_000 * 1000 + (mon.last_live_ms > 0) as u64, mon.live_in_interval.iter().all(|l| *l))
+        format!("{} hs={} slot={} live={} liv={:?}", w.default_key(), mon.hs_done, mon.slot, mon.last_live_ms / 120_000 * 1000 + (mon.last_live_ms > 0) as u64, mon.live_in_interval.iter().all(|l| *l))
     }
 }
 
 pub fn scenarios(thorough: bool) -> Vec<Timed> {
     if thorough {
         vec![
-            Timed { slots: vec![30, 60, 90], symbols: vec!["nothing", "KeepAlive", "Have", "Choke", "Unchoke", "Request", "Interested"], intervals: 12 },
-            Timed { slots: vec![1, 119], symbols: vec!["nothing", "KeepAlive", "Have", "Interested", "Choke", "Unchoke"], intervals: 12 },
-            Timed { slots: vec![5, 15, 25, 115], symbols: vec!["nothing", "KeepAlive", "Have"], intervals: 8 },
+            Timed { slots: vec![30, 60, 90], symbols: vec!["nothing", "KeepAlive", "Have", "Choke", "Unchoke", "Request", "Interested"], intervals: 12, handshaken: true, outgoing: true },
+            Timed { slots: vec![1, 119], symbols: vec!["nothing", "KeepAlive", "Have", "Interested", "Choke", "Unchoke"], intervals: 12, handshaken: true, outgoing: true },
+            Timed { slots: vec![5, 15, 25, 115], symbols: vec!["nothing", "KeepAlive", "Have"], intervals: 8, handshaken: true, outgoing: true },
+            Timed { slots: vec![30, 90], symbols: vec!["nothing", "Handshake", "KeepAlive", "Have", "Unchoke"], intervals: 8, handshaken: false, outgoing: true },
+            Timed { slots: vec![30, 90], symbols: vec!["nothing", "Handshake", "KeepAlive", "Have", "Unchoke"], intervals: 8, handshaken: false, outgoing: false },
         ]
     } else {
         vec![
-            Timed { slots: vec![30, 60, 90], symbols: vec!["nothing", "KeepAlive", "Have", "Choke", "Unchoke", "Request"], intervals: 6 },
-            Timed { slots: vec![1, 119], symbols: vec!["nothing", "KeepAlive", "Have", "Interested"], intervals: 6 },
+            Timed { slots: vec![30, 60, 90], symbols: vec!["nothing", "KeepAlive", "Have", "Choke", "Unchoke", "Request"], intervals: 6, handshaken: true, outgoing: true },
+            Timed { slots: vec![1, 119], symbols: vec!["nothing", "KeepAlive", "Have", "Interested"], intervals: 6, handshaken: true, outgoing: true },
+            // peers that connect (or are connected to) and stay silent, or handshake late
+            Timed { slots: vec![60], symbols: vec!["nothing", "Handshake", "KeepAlive", "Have"], intervals: 5, handshaken: false, outgoing: true },
+            Timed { slots: vec![60], symbols: vec!["nothing", "Handshake", "KeepAlive", "Have"], intervals: 5, handshaken: false, outgoing: false },
         ]
     }
 }
@@ -174,7 +196,7 @@ pub fn run(ctx: &Ctx) -> Outcome {
     explore::stats_outcome(&total, &mut o);
     o.set("scenarios", Value::Array(per));
     o.set("rule", json!("each 120 s keep-alive interval is cut at the listed slot offsets; an event = advance the paused clock to the next slot, then feed one symbol of the alphabet (or nothing); BFS over all scripts for the stated number of intervals; states are merged when manager snapshot, connection-task snapshot (keep-alive counter, flags, reservation, byte counters), slot number and the monitor's summary agree, so the number of timed scripts covered (symbols^slots) is far larger than the number of states"));
-    o.assume("the connection holds a reservation (handshake, bitfield, unchoke are fed at t=0); messages arrive at slot times only, i.e. at fixed offsets from the 120 s timer; slots at +1 s and +119 s probe both sides of each tick");
+    o.assume("the connection holds a reservation (handshake, bitfield, unchoke are fed at t=0) except in the -nohs scenarios, where the peer is silent from the start or handshakes at some slot (outgoing and incoming connections); messages arrive at slot times only, i.e. at fixed offsets from the 120 s timer; slots at +1 s and +119 s probe both sides of each tick");
     o.assume("merging states by (real state, slot, which interval the last live message fell into) is sound for the oracle because (a)-(c) only read those");
     o
 }
